@@ -57,11 +57,6 @@ Theorem c06_accept_iff_coercible_refuted_inject_defaults_string_reparsed :
 Proof. exact refuted_inject_reparse_proof. Qed.
 Print Assumptions c06_accept_iff_coercible_refuted_inject_defaults_string_reparsed.
 
-Theorem c06_accept_iff_coercible_refuted_variable_default_null_list_wrapped :
-  exists S vds vars, accepts go_quirks S no_reparse vds vars = false /\ coercible_all std S vds vars = true.
-Proof. exact refuted_default_null_wrap_proof. Qed.
-Print Assumptions c06_accept_iff_coercible_refuted_variable_default_null_list_wrapped.
-
 Theorem c06_accept_iff_coercible_refuted_remap_name_collision_upload :
   exists S vds vars, accepts go_quirks S no_reparse vds vars = true /\ coercible_all std S vds vars = false.
 Proof. exact refuted_remap_collision_proof. Qed.
